@@ -581,6 +581,8 @@ class Bf3File:
                 comp_comment = "Main Firmware"
             elif comptype == BF3TYPE.LOADER:
                 rev_intf_map = {v: k for k, v in BF3INTF.__dict__.items()}
+                if BF3TAG.INTF not in comp.description:
+                    raise Bf3FileFormatError("Loader firmware without interface")
                 intf = int.from_bytes(comp.description[BF3TAG.INTF], "big")
                 comp_comment = rev_intf_map[intf] + " Loader Firmware"
             elif comptype == BF3TYPE.PERIPHERAL:
@@ -664,6 +666,8 @@ class Bf3File:
         comments = {}
 
         def emit_bf3comp():
+            if not bf2_fwdata:
+                raise Bf3FileFormatError("BF2 instruction without firmware data")
             fwtagtype = bf2_fwdata[0].fwtagtype
             if fwtagtype not in BF2_TAGTYPE_MAP:
                 raise UnsupportedTagTypeError(
@@ -686,7 +690,7 @@ class Bf3File:
                 cls.exec_bf2instrs(bf2_instrs, desc, comments)
             except UnsupportedBf2InstrError:
                 bf2_fwdata[:] = []
-            except (ValueError, IndexError, KeyError):
+            except (ValueError, IndexError, KeyError, OverflowError):
                 raise Bf3FileFormatError("Invalid BF2 Instruction")
             else:
                 content = cls.bf2_convert_payload(bf2_fwdata, bf3tag_fmt)
